@@ -709,7 +709,9 @@ func (idx *indexer) indexBulkSince(txID uint64, restarting bool) error {
 
 			n := serializeIndexableEntry(b[:], txmd, e, kvmd)
 
-			idx._kvs[indexableEntries].K = targetKey
+			// without mappers targetKey is a slice of idx.tx's key buffer, which the next readTx of this
+			// bulk overwrites: the key must be copied
+			idx._kvs[indexableEntries].K = append(idx._kvs[indexableEntries].K[:0], targetKey...)
 			idx._kvs[indexableEntries].V = b[:n]
 			idx._kvs[indexableEntries].T = txID + uint64(i)
 
